@@ -13,12 +13,15 @@
 (***************************************************************************)
 EXTENDS Inputs, TLC
 
-CONSTANTS Deep      \* FALSE: queries of depth <= 1; TRUE: plus one level under [ ], first, try, limit, drain
+CONSTANTS Deep,     \* FALSE: queries of depth <= 1; TRUE: plus one level under [ ], first, try, limit, drain
+          Wide      \* FALSE: fewer texts per source (quick tier)
 
 \* texts: 49..54 = "1".."6", 32 = space, 125 = "}" (a malformed document), 10 = LF
-T1 == { <<>>, <<49, 32, 50>>, <<49, 32, 125>>, <<49, 32, 125, 32, 50>>, <<125, 32, 49>> }
+T1 == IF Wide THEN { <<>>, <<49, 32, 50>>, <<49, 32, 125>>, <<49, 32, 125, 32, 50>>, <<125, 32, 49>> }
+      ELSE { <<49, 32, 50>>, <<49, 32, 125, 32, 50>> }
 T2 == { <<51>>, <<125>> }
-T0 == { <<>>, <<53, 10, 54>>, <<53, 10, 125>>, <<53, 10, 125, 10, 54, 10>> }
+T0 == IF Wide THEN { <<>>, <<53, 10, 54>>, <<53, 10, 125>>, <<53, 10, 125, 10, 54, 10>> }
+      ELSE { <<>>, <<53, 10, 54>>, <<53, 10, 125, 10, 54, 10>> }
 Names == {"f1", "f2", "-", "fx"}
 FileSeqs == {<<>>} \cup {<<a>> : a \in Names} \cup {<<a, b>> : a \in Names, b \in Names}
             \cup {<<a, b, c>> : a \in Names, b \in Names, c \in Names}
